@@ -3,6 +3,7 @@
 #include <memory>
 #include <vector>
 #include <algorithm>
+#include <unordered_set>
 
 #include "type.h"
 
@@ -75,7 +76,8 @@ namespace sqf::runtime
         bool contains_itself() const
         {
             std::vector<const data*> path{ this };
-            return contains_on_path(path);
+            std::unordered_set<const data*> done;
+            return contains_on_path(path, done);
         }
 
         /// <summary>
@@ -83,27 +85,38 @@ namespace sqf::runtime
         /// </summary>
         bool reaches(const data* target) const
         {
-            if (this == target) { return true; }
+            // Every container is looked into once, however many ways lead to it (a value may be shared many times over)
+            std::unordered_set<const data*> seen;
+            std::vector<const data*> todo{ this };
             std::vector<std::shared_ptr<data>> children;
-            contained(children);
-            for (auto& child : children)
+            while (!todo.empty())
             {
-                if (child && child->reaches(target)) { return true; }
+                auto current = todo.back();
+                todo.pop_back();
+                if (current == target) { return true; }
+                children.clear();
+                current->contained(children);
+                if (children.empty() || !seen.insert(current).second) { continue; }
+                for (auto& child : children)
+                {
+                    if (child) { todo.push_back(child.get()); }
+                }
             }
             return false;
         }
     private:
-        bool contains_on_path(std::vector<const data*>& path) const
+        bool contains_on_path(std::vector<const data*>& path, std::unordered_set<const data*>& done) const
         {
             std::vector<std::shared_ptr<data>> children;
             contained(children);
             for (auto& child : children)
             {
-                if (!child) { continue; }
+                if (!child || done.find(child.get()) != done.end()) { continue; }
                 if (std::find(path.begin(), path.end(), child.get()) != path.end()) { return true; }
                 path.push_back(child.get());
-                if (child->contains_on_path(path)) { return true; }
+                if (child->contains_on_path(path, done)) { return true; }
                 path.pop_back();
+                done.insert(child.get()); // (nothing below it leads back: no need to walk it again when it is shared)
             }
             return false;
         }
